@@ -100,7 +100,14 @@ Definition mstep (m : mon) (o : obs) : mon :=
   let rexmitUna := existsb (fun f => f_seq f =? sndUna sp) (dataFrames fs) in
   (* (c) fast retransmit on the third duplicate ACK: first recovery of the trace, or after a
      time-out once sndUna is beyond the sequence numbers outstanding at that time-out *)
-  let enter := third && (negb (m_recov m) || (m_lastRto m && lessThan (m_rp m) (sndUna sp))) in
+  (* third duplicate after a FINISHED fast recovery (no time-out since), sndUna beyond that
+     recovery's point (RFC 6582 "recover"): the code retransmits only if its fr.last - moved up to
+     sndNxt-1 when the recovery ended - is before sndUna; otherwise known finding
+     C05-dupacks-after-recovery (code 2 below) *)
+  let afterFR := third && m_recov m && negb (m_lastRto m) && negb (m_infr m) && lessThan (m_rp m) (sndUna sp) in
+  let frCovers := negb (lessThan (frLast sp) (sndUna sp)) in
+  let enter := third && (negb (m_recov m) || (m_lastRto m && lessThan (m_rp m) (sndUna sp)) ||
+                         (afterFR && negb frCovers)) in
   let badC := enter && negb rexmitUna in
   (* (c0) "otherwise it is retransmitted by timeout": fewer than three duplicates retransmit nothing *)
   let badC0 := isdupS && (dups' <? 3) && negb (frActive sp) && rexmitUna in
@@ -115,9 +122,9 @@ Definition mstep (m : mon) (o : obs) : mon :=
                else if m_infr m && lessThan (m_rp m) una' then false else m_infr m in
   let rp' := if enter || rrto then u32 (sndNxt sp - 1) else m_rp m in
   let lastRto' := if rrto then true else if enter then false else m_lastRto m in
-  (* dup ACKs after a completed fast recovery, beyond its recovery point, that trigger nothing *)
-  let f12 := third && m_recov m && negb (m_lastRto m) && negb (m_infr m) && lessThan (m_rp m) (sndUna sp) &&
-             negb rexmitUna in
+  (* known finding C05-dupacks-after-recovery: exactly that situation with fr.last not before
+     sndUna and no data frame at sndUna emitted *)
+  let f12 := afterFR && frCovers && negb rexmitUna in
   (* (d) time-out *)
   let head := match wlist prev with w :: _ => Some w | [] => None end in
   let mustSend := match head with
@@ -151,12 +158,16 @@ Definition monitor (c : case) : mon :=
    5 time-out, 6 floors, 7 retransmission on fewer than three duplicates); for diagnosis *)
 Definition spec_clause (c : case) : Z := m_bad (monitor c).
 
-(* 0 = satisfied, 1 = violated (no known-finding pattern is excused by this monitor) *)
-Definition spec (c : case) : Z := if m_bad (monitor c) =? 0 then 0 else 1.
+(* 0 = satisfied, 1 = violated, 2 = the only deviation of the trace is the known-finding pattern
+   C05-dupacks-after-recovery (tag bit 32); any other violation, including any other missing
+   fast retransmit, is 1 and takes precedence *)
+Definition spec (c : case) : Z :=
+  let m := monitor c in
+  if negb (m_bad m =? 0) then 1 else if Z.land (m_tag m) 32 =? 32 then 2 else 0.
 
 (* classes reached: 1 data segments emitted, 2 fast recovery entered, 4 time-out, 8 partial ACK in
    recovery, 16 cwnd grew, 32 three duplicate ACKs beyond a finished recovery's point triggered no
-   retransmission (candidate finding, see report), 64 connection given up after back-off *)
+   retransmission (known finding C05-dupacks-after-recovery), 64 connection given up after back-off *)
 Definition tag (c : case) : Z := m_tag (monitor c).
 
 Definition judge (c : case) : list Z := [trace_corr c; spec c; tag c].
